@@ -251,6 +251,60 @@ Proof.
   apply (G l []). constructor.
 Qed.
 
+(* the same for the ascending insertion sort by a string key (directory listings) *)
+Definition asc {A} (key : A -> string) : A -> A -> Prop := fun a b => String.ltb (key b) (key a) = false.
+Definition klt {A} (key : A -> string) : A -> A -> bool := fun x y => String.ltb (key x) (key y).
+Lemma ins_by_sorted {A} (key : A -> string) x l : StronglySorted (asc key) l -> StronglySorted (asc key) (ins_by (klt key) x l).
+Proof.
+  induction 1 as [|a l S IH F]; simpl.
+  - constructor; constructor.
+  - unfold klt at 1. destruct (String.ltb (key x) (key a)) eqn:E.
+    + constructor. { constructor; auto. }
+      constructor. { unfold asc. apply sltb_asym; auto. }
+      eapply Forall_impl; [|exact F]. unfold asc. intros b Hb.
+      destruct (String.ltb (key b) (key x)) eqn:E2; auto.
+      rewrite (sltb_trans _ _ _ E2 E) in Hb. discriminate.
+    + constructor; auto.
+      assert (P : Permutation (ins_by (klt key) x l) (x :: l)) by apply ins_by_perm.
+      eapply Permutation_Forall; [apply Permutation_sym, P|]. constructor; auto.
+Qed.
+Lemma asc_le_lt {A} (key : A -> string) x y z : String.ltb (key z) (key y) = false -> String.ltb (key x) (key y) = true ->
+  String.ltb (key x) (key z) = true.
+Proof.
+  intros H1 H2. destruct (String.ltb (key x) (key z)) eqn:E; auto.
+  destruct (string_dec (key x) (key z)) as [Q|Q]. { rewrite <- Q in H1. congruence. }
+  destruct (sltb_total _ _ Q) as [T|T]; [congruence|]. rewrite (sltb_trans _ _ _ T H2) in H1. discriminate.
+Qed.
+Lemma ins_by_front {A} (key : A -> string) x y l :
+  StronglySorted (asc key) (y :: l) -> String.ltb (key x) (key y) = true -> forall P, ins_by (klt key) x (filter P (y :: l)) = x :: filter P (y :: l).
+Proof.
+  intros S H P. inversion S as [|? ? S' F]; subst. simpl. destruct (P y); simpl. { unfold klt. rewrite H. reflexivity. }
+  clear S. induction l as [|z l IH]; simpl; auto. inversion F; subst. inversion S'; subst.
+  destruct (P z); simpl.
+  - unfold klt, asc in *. rewrite (asc_le_lt key x y z H2 H). reflexivity.
+  - apply IH; auto.
+Qed.
+Lemma ins_by_filter {A} (key : A -> string) (P : A -> bool) x l : StronglySorted (asc key) l ->
+  filter P (ins_by (klt key) x l) = if P x then ins_by (klt key) x (filter P l) else filter P l.
+Proof.
+  induction 1 as [|y l S IH F].
+  - simpl. destruct (P x); reflexivity.
+  - cbn [ins_by]. unfold klt at 1. destruct (String.ltb (key x) (key y)) eqn:E.
+    + cbn [filter]. destruct (P x) eqn:Px; auto.
+      change (if P y then y :: filter P l else filter P l) with (filter P (y :: l)).
+      rewrite (ins_by_front key x y l); auto. constructor; auto.
+    + cbn [filter]. rewrite IH. destruct (P x), (P y); simpl; unfold klt; try rewrite E; reflexivity.
+Qed.
+Lemma isort_filter {A} (key : A -> string) (P : A -> bool) l : filter P (isort (klt key) l) = isort (klt key) (filter P l).
+Proof.
+  unfold isort.
+  assert (G : forall l acc, StronglySorted (asc key) acc ->
+              filter P (fold_left (fun acc x => ins_by (klt key) x acc) l acc) = fold_left (fun acc x => ins_by (klt key) x acc) (filter P l) (filter P acc)).
+  { clear l. induction l as [|x l IH]; intros acc S; simpl; auto.
+    rewrite IH by (apply ins_by_sorted; auto). rewrite ins_by_filter by auto. destruct (P x); reflexivity. }
+  apply (G l []). constructor.
+Qed.
+
 (* two key functions that compare alike on the elements of l sort l alike *)
 Lemma ins_desc_ext {A} (k1 k2 : A -> string) x l :
   (forall y, In y l -> String.ltb (k1 y) (k1 x) = String.ltb (k2 y) (k2 x)) -> ins_desc k1 x l = ins_desc k2 x l.
